@@ -61,6 +61,10 @@ def add_resets(lines):
 
 
 def pack(cases, per=PER_LINE):
+    # the empty key is also hashed through a null pointer (kind 5): reading no byte needs no object
+    for c in cases:
+        if len(c[0]) == 0 and [5, 0, 0] not in c[2]:
+            c[2] = list(c[2]) + [[5, 0, 0]]
     return add_resets([{"op": "H", "c": cases[i:i + per]} for i in range(0, len(cases), per)])
 
 
